@@ -34,6 +34,7 @@ type loadSpec struct {
 	Faults  map[int]int // position in Values() order -> store.Fault
 	Exclude []int       // positions excluded through ShouldExclude
 	Timeout bool        // load with a timeout (virtual timer)
+	Perm    int         // index of the permutation in which the heads are handed to the loader (0 = the log's own order)
 }
 
 func (s loadSpec) name(prefix string) string {
@@ -59,6 +60,9 @@ func (s loadSpec) name(prefix string) string {
 	}
 	if s.Timeout {
 		parts = append(parts, "timeout")
+	}
+	if s.Perm > 0 {
+		parts = append(parts, fmt.Sprintf("headorder%d", s.Perm))
 	}
 	return strings.Join(parts, "/")
 }
@@ -149,14 +153,25 @@ func makeLoad(prefix string, ls loadSpec, judge func(s *stored, ls loadSpec, st 
 			excl[s.vals[p].GetHash().String()] = true
 		}
 		_ = bad
+		heads := permuteEntries(s.heads, ls.Perm)
 		var start []cid.Cid
 		switch ls.Loader {
 		case "entryhash":
-			start = []cid.Cid{s.heads[0].GetHash()}
+			start = []cid.Cid{heads[0].GetHash()}
 		default:
-			for _, h := range s.heads {
+			for _, h := range heads {
 				start = append(start, h.GetHash())
 			}
+		}
+		mh := s.mh
+		if ls.Perm > 0 && ls.Loader == "multihash" {
+			// a manifest written by someone else may list the heads in any order
+			c, err := s.log.IO().Write(world.Ctx, st, &iface.JSONLog{ID: "X", Heads: start}, nil)
+			if err != nil {
+				panic(err)
+			}
+			mh = c
+			st.ResetCalls()
 		}
 		r := &loadResult{}
 		var lp *int
@@ -176,7 +191,7 @@ func makeLoad(prefix string, ls loadSpec, judge func(s *stored, ls loadSpec, st 
 			lo := &ipfslog.LogOptions{ID: "X"}
 			switch ls.Loader {
 			case "multihash":
-				r.log, r.err = ipfslog.NewFromMultihash(world.Ctx, st, world.IDs[0], s.mh, lo, &ipfslog.FetchOptions{Length: lp, Concurrency: ls.Conc, ShouldExclude: shouldExclude, Timeout: to})
+				r.log, r.err = ipfslog.NewFromMultihash(world.Ctx, st, world.IDs[0], mh, lo, &ipfslog.FetchOptions{Length: lp, Concurrency: ls.Conc, ShouldExclude: shouldExclude, Timeout: to})
 			case "entryhash":
 				r.log, r.err = ipfslog.NewFromEntryHash(world.Ctx, st, world.IDs[0], start[0], lo, &ipfslog.FetchOptions{Length: lp, Concurrency: ls.Conc, ShouldExclude: shouldExclude, Timeout: to})
 			case "json":
@@ -184,7 +199,7 @@ func makeLoad(prefix string, ls loadSpec, judge func(s *stored, ls loadSpec, st 
 			case "fetchall":
 				r.entries = entry.FetchAll(world.Ctx, st, start, &iface.FetchOptions{Concurrency: ls.Conc, ShouldExclude: shouldExclude, Timeout: to})
 			case "entry":
-				r.log, r.err = ipfslog.NewFromEntry(world.Ctx, st, world.IDs[0], append([]iface.IPFSLogEntry{}, s.heads...), lo, &iface.FetchOptions{Length: lp, Concurrency: ls.Conc, Timeout: to})
+				r.log, r.err = ipfslog.NewFromEntry(world.Ctx, st, world.IDs[0], append([]iface.IPFSLogEntry{}, heads...), lo, &iface.FetchOptions{Length: lp, Concurrency: ls.Conc, Timeout: to})
 			}
 			r.ret = true
 		}
@@ -313,9 +328,62 @@ func c09Scenarios(tier string) []Spec {
 			}
 		}
 	}
+	for _, sh := range []string{"fork", "heads3"} {
+		st := getStored(sh)
+		for pm := 1; pm < factorial(len(st.heads)); pm++ {
+			for _, ld := range []string{"json", "entry", "multihash"} {
+				ls := loadSpec{Shape: sh, Loader: ld, Conc: 2, N: -1, Perm: pm}
+				specs = append(specs, Spec{HBCache: true, RaceBound: 1, Shards: 1, NoRace: true, Sc: makeLoad("C09", ls, judgeC09)})
+			}
+		}
+	}
 	return specs
 }
 
 func init() {
 	register(&Check{ID: "C09", Scenarios: c09Scenarios})
+}
+
+// permuteEntries returns the k-th permutation (lexicographic over indices) of es; k = 0 is es itself.
+func permuteEntries(es []iface.IPFSLogEntry, k int) []iface.IPFSLogEntry {
+	if k == 0 {
+		return es
+	}
+	perms := allPerms(len(es))
+	pm := perms[k%len(perms)]
+	out := make([]iface.IPFSLogEntry, len(es))
+	for i, j := range pm {
+		out[i] = es[j]
+	}
+	return out
+}
+
+func allPerms(n int) [][]int {
+	var res [][]int
+	a := make([]int, n)
+	for i := range a {
+		a[i] = i
+	}
+	var rec func(k int)
+	rec = func(k int) {
+		if k == n {
+			res = append(res, append([]int{}, a...))
+			return
+		}
+		for i := k; i < n; i++ {
+			a[k], a[i] = a[i], a[k]
+			rec(k + 1)
+			a[k], a[i] = a[i], a[k]
+		}
+	}
+	rec(0)
+	return res
+}
+
+func factorial(n int) int {
+	f := 1
+	for i := 2; i <= n; i++ {
+		f *= i
+	}
+	return f
 }
